@@ -628,13 +628,38 @@ fn ops_time_add_via_apply_binary() {
     assert!(ok, "apply_binary returns time_arith's result for TIME + TIME");
 }
 
-/// point (ticks) +/- TIME under the default profile (1 tick = 1 ms): the duration is truncated to
-/// whole ticks. The oracle has no divider: the tick count k is an assumed witness of the truncating
-/// decomposition  t = k * 10^6 + r, |r| < 10^6, sign(r) = sign(t)  (it exists and is unique; the
-/// cover! statements show the assumption is satisfiable).
+// duration_to_ticks under the default profile (1 tick = 1 ms): truncation toward zero, stated
+// relationally (no divider in the oracle):  t = k * 10^6 + r,  |r| < 10^6,  r = 0 or sign(r) = sign(t).
+// @unit id=ops.duration_to_ticks props=C01,C02 tier=quick kind=proof timeout=1200 fn=duration_to_ticks
+#[kani::proof]
+fn ops_duration_to_ticks() {
+    let t: i64 = kani::any();
+    let r = duration_to_ticks(Duration::from_nanos(t), &profile());
+    let ok = match &r {
+        Ok(k) => trunc_decomp_ok(t as i128, 1_000_000, *k as i128, t as i128 - *k as i128 * 1_000_000),
+        Err(_) => false,
+    };
+    kani::cover!(t < -1_000_000);
+    kani::cover!(t > 1_999_999);
+    std::mem::forget(r);
+    assert!(ok, "TIME -> ticks truncates toward zero and never fails under the default profile");
+}
+
+/// Stub that stands for duration_to_ticks in the callers' harnesses: any result allowed by the
+/// contract just proved (ops.duration_to_ticks) -- modular reasoning, the callers see only the contract.
+fn duration_to_ticks_contract(time: Duration, _profile: &DateTimeProfile) -> Result<i64, RuntimeError> {
+    let t = time.as_nanos();
+    let k: i64 = kani::any();
+    kani::assume(trunc_decomp_ok(t as i128, 1_000_000, k as i128, t as i128 - k as i128 * 1_000_000));
+    Ok(k)
+}
+
+/// point (ticks) +/- TIME: exact in ticks with the duration truncated to whole ticks. The tick count
+/// k is the assumed witness of the same decomposition (it exists and is unique).
 macro_rules! point_with_time {
     ($name:ident, $mkp:expr, $var:ident, $op:ident, $swap:expr, |$a:ident, $k:ident| $e:expr) => {
         #[kani::proof]
+        #[kani::stub(duration_to_ticks, duration_to_ticks_contract)]
         fn $name() {
             let $a: i64 = kani::any();
             let t: i64 = kani::any();
